@@ -90,7 +90,10 @@ Broken(e) ==
       [] e.e = "timeout" -> {"hang_in_" \o e.op}
       [] e.e = "crash" -> {"crash"}
       [] e.e = "end" ->
-            \* quiescence: every thread is gone, every handle consumed (or deliberately kept)
+            \* quiescence: every thread is gone, every handle consumed (or deliberately kept).
+            \* e.quiet = FALSE: the run was cut short (hang, or stopped on purpose after an early
+            \* join before the thread could use released memory) - nothing can be said about leaks
+            IF ~e.quiet THEN (IF hs \in {"injoin", "indrop"} THEN {"handle_operation_never_returned"} ELSE {}) ELSE
             (IF spawned = "ok" /\ ran = 0 THEN {"closure_never_ran"} ELSE {})
             \cup (IF spawned = "err" /\ ran > 0 THEN {"closure_ran_but_spawn_failed"} ELSE {})
             \cup (IF hs \in {"injoin", "indrop"} THEN {"handle_operation_never_returned"} ELSE {})
